@@ -19,7 +19,7 @@ CLAIMS.update({
          "traces are unique; the generator's arith_map/compare_map (regenerated each run) agree with the reference operators including "
          "division by zero; reaching all_is_win is [flag win] + terminal loop; write(int) is correct. PROVED end to end for the sequential "
          "integer core (int locals, arithmetic, comparisons/and/or/not, declarations, assignments, write/writeln, blocks, if, loops, "
-         "return, try/undo with defeat calls, int parameters of the entry point, user functions with calls and recursion): core_semantic_preservation - the model Compiler/Core.lean of the code generator, checked on every run to be IDENTICAL "
+         "return, break/continue, try/undo with defeat calls, int parameters of the entry point, user functions with calls and recursion): core_semantic_preservation - the model Compiler/Core.lean of the code generator, checked on every run to be IDENTICAL "
          "to the assembled output of the real compiler, performs exactly the events of the source semantics, for every program, word "
          "size, stack size, argument vector and build mode. NOT proved beyond the core (arrays, bytes, strings, globals, preempt/stop): validated by running "
          "real hidc output on the Lean VM against the reference machine on generated programs, the examples and the 52 upstream "
